@@ -19,6 +19,7 @@ pub const G_T: [u32; 40] = [
     108, 110, 121, 180, 181, 188, 200, 280, 300, 900, 999,
 ];
 pub const S_SMALL: [u32; 6] = [0, 1, 2, 21, 100, 999];
+pub const S_QUICK: [u32; 3] = [0, 21, 999];
 
 struct Shard {
     l: L,
@@ -131,9 +132,10 @@ pub fn run(tier: Tier) -> i32 {
             shards.push(Shard { l, lo, hi, kind: 1, vars: axes.clone(), frames: vec![1] });
             lo = hi;
         }
-        if tier == Tier::Thorough {
-            for pos in 0..4u64 {
-                shards.push(Shard { l, lo: pos, hi: pos + 1, kind: 2, vars: axes.clone(), frames: vec![1] });
+        // per-position sweep: every value 0..999 of one group, the other groups from a small set
+        for pos in 0..4u64 {
+            for part in 0..4u64 {
+                shards.push(Shard { l, lo: pos, hi: part, kind: 2, vars: axes.clone(), frames: vec![1] });
             }
         }
     }
@@ -176,10 +178,11 @@ pub fn run(tier: Tier) -> i32 {
             }
             _ => {
                 let pos = sh.lo as usize;
-                for val in 0..1000u32 {
-                    for a in S_SMALL {
-                        for b in S_SMALL {
-                            for c in S_SMALL {
+                let small: &[u32] = if tier == Tier::Thorough { &S_SMALL } else { &S_QUICK };
+                for val in (sh.hi as u32 * 250)..((sh.hi as u32 + 1) * 250) {
+                    for &a in small {
+                        for &b in small {
+                            for &c in small {
                                 let others = [a, b, c];
                                 let mut g = [0u32; 4];
                                 let mut oi = 0;
@@ -208,7 +211,7 @@ pub fn run(tier: Tier) -> i32 {
             "dense_all_variant_combinations_below": dense_all,
             "dense_standard_plus_single_axis_below": dense_axes,
             "group_product": format!("{}^4 three-digit groups (numbers up to 10^12)", gset.len()),
-            "per_position_sweep": tier == Tier::Thorough,
+            "per_position_sweep": format!("each group position x all 1000 values x other groups from {:?}", if tier == Tier::Thorough { S_SMALL.to_vec() } else { S_QUICK.to_vec() }),
             "frames": FRAMES.iter().map(|(a, b)| format!("{a:?}+n+{b:?}")).collect::<Vec<_>>(),
             "thresholds": [0.0, 10.0],
         },
